@@ -245,8 +245,8 @@ CtorFromUtf16Lossy(us, cap) == Res("ok", UnitChars(us), cap, <<>>, <<>>, -1)
 Empty(cap) == [chars |-> <<>>, cap |-> cap]
 
 \* format-string literals (the Arguments::as_str() fast path); mirrored by with_args() in harness/strs/src/main.rs:
-\* "a", "a\0é", "", "€😀"
-LitsDef == << <<97>>, <<97, 0, 233>>, <<>>, <<8364, 128512>> >>
+\* "a", "a\0é", "", "€😀", "\0a"
+LitsDef == << <<97>>, <<97, 0, 233>>, <<>>, <<8364, 128512>>, <<0, 97>> >>
 
 \* operation records: [name |-> ..., <arguments>]; constructors carry kind/cap of the string to build.
 \* `Lits` (format-string literals, the Arguments::as_str() fast path) is a parameter of the dispatch.
